@@ -229,8 +229,19 @@ impl<C: Cfg> World<C> {
 
     /// Model a forgotten removal handle: afterwards the vector is only required to be *valid*;
     /// resynchronise the model from what is visible (checked by the validity predicate).
-    pub fn forgot_from(&mut self, v: usize, _idx: usize, _expected: u32, _kind: RemKind) {
+    pub fn forgot_from(&mut self, v: usize, idx: usize, _expected: u32, kind: RemKind) {
+        // model[v] already has the element removed; everything before `idx` must be untouched
+        let prefix: Vec<u32> = self.model[v][..idx.min(self.model[v].len())].to_vec();
         self.resync_after_damage(v);
+        self.recount_leaks();
+        self.forgot = true;
+        self.class("forgot-handle");
+        if self.dead() {
+            return;
+        }
+        if self.model[v].len() < prefix.len() || self.model[v][..prefix.len()] != prefix[..] {
+            self.fail(MON_VALID, format!("{:?}:forget-prefix", kind), format!("after forgetting the {:?} handle at index {} the elements before it changed: expected prefix {:?}, vector is {:?}", kind, idx, prefix, self.model[v]));
+        }
     }
 
     /// After a fault / forget: which elements survive is unspecified. Check the validity
@@ -263,9 +274,16 @@ impl<C: Cfg> World<C> {
             }
         }
         self.model[v] = newm;
-        // recompute permitted leaks: alive - reachable
+    }
+
+    /// After all damaged slots were resynchronised: everything alive but no longer reachable
+    /// is a permitted leak from now on.
+    pub fn recount_leaks(&mut self) {
+        if self.dead() {
+            return;
+        }
+        let total: usize = (0..3).filter(|s| self.vecs[*s].is_some()).map(|s| self.model[s].len()).sum();
         if C::T::TRACKED && !C::T::ZST {
-            let total: usize = (0..3).filter(|s| self.vecs[*s].is_some()).map(|s| self.model[s].len()).sum();
             let live = reg(|r| r.live);
             if live < total {
                 self.fail(MON_VALID | MON_OWN, "valid:destroyed-visible", format!("after damage: {} elements alive but {} visible", live, total));
@@ -274,7 +292,6 @@ impl<C: Cfg> World<C> {
             self.permitted_leaks = live - total;
         }
         if C::T::TRACKED && C::T::ZST {
-            let total: usize = (0..3).filter(|s| self.vecs[*s].is_some()).map(|s| self.model[s].len()).sum();
             let live = reg(|r| r.zst_live);
             if live < total as i64 {
                 self.fail(MON_VALID | MON_OWN, "valid:destroyed-visible", format!("after damage: {} zero-sized elements alive but {} visible", live, total));
@@ -373,91 +390,139 @@ impl<C: Cfg> World<C> {
         }
     }
 
-    /// Iterate the whole vector through one of the iterator kinds, front-to-back, back-to-front
-    /// or alternating, and compare with the model.
-    pub fn do_iter(&mut self, v: usize, kind: u32, pattern: u32, tr: &mut String) {
-        const NAMES: [&str; 7] = ["iter", "iter_mut", "(&v).into_iter", "(&mut v).into_iter", "typed.iter", "typed.iter_mut", "typed.as_slice"];
-        let name = NAMES[kind as usize % 7];
-        const PAT: [&str; 3] = ["forward", "backward", "alternating"];
-        let _ = write!(tr, "{}(v{}, {})", name, v, PAT[pattern as usize % 3]);
+    /// Iterate the whole vector through one of the iterator kinds with an arbitrary string of
+    /// next (false) / next_back (true) calls, possibly continuing past exhaustion. Kind 7 clones
+    /// an `IterRef` after `clone_at` calls and advances original and clone independently.
+    pub fn do_iter(&mut self, v: usize, kind: u32, calls: &[bool], clone_at: usize, tr: &mut String) {
+        const NAMES: [&str; 8] = ["iter", "iter_mut", "(&v).into_iter", "(&mut v).into_iter", "typed.iter", "typed.iter_mut", "typed.as_slice.iter", "iter.clone"];
+        let kind = kind % 8;
+        let name = NAMES[kind as usize];
+        let pat: String = calls.iter().map(|b| if *b { 'B' } else { 'F' }).collect();
+        let _ = write!(tr, "{}(v{}, \"{}\"", name, v, pat);
+        if kind == 7 {
+            let _ = write!(tr, ", clone after {} calls", clone_at.min(calls.len()));
+        }
+        let _ = write!(tr, ")");
         let len = self.model[v].len();
         let vec = self.vecs[v].as_mut().unwrap();
-        let mut out: Vec<(bool, Option<u32>)> = Vec::with_capacity(len + 4);
-        let mut hint_bad: Option<(usize, (usize, Option<usize>), usize)> = None;
+        let mut out: Vec<Option<u32>> = Vec::with_capacity(calls.len() + 1);
+        let mut out2: Vec<Option<u32>> = Vec::with_capacity(len + calls.len() + 2);
+        let mut hint_bad: Option<(usize, (usize, Option<usize>), usize, usize)> = None;
         macro_rules! walk {
-            ($it:expr, $get:expr) => {{
-                let mut it = $it;
-                let mut k = 0usize;
-                loop {
-                    let remaining = len - k.min(len);
-                    let sh = it.size_hint();
-                    let l = it.len();
+            ($it:expr, $get:expr, $calls:expr, $out:expr, $done:expr) => {{
+                let mut yielded = $done;
+                for (k, back) in $calls.iter().enumerate() {
+                    let remaining = len - yielded.min(len);
+                    let sh = $it.size_hint();
+                    let l = $it.len();
                     if (sh != (remaining, Some(remaining)) || l != remaining) && hint_bad.is_none() {
-                        hint_bad = Some((k, sh, l));
+                        hint_bad = Some((k, sh, l, remaining));
                     }
-                    let back = match pattern % 3 {
-                        0 => false,
-                        1 => true,
-                        _ => k % 2 == 1,
-                    };
-                    let e = if back { it.next_back() } else { it.next() };
+                    let e = if *back { $it.next_back() } else { $it.next() };
                     match e {
-                        None => break,
+                        None => $out.push(None),
                         Some(e) => {
-                            if out.len() < out.capacity() {
-                                out.push((back, $get(e)));
-                            }
+                            yielded += 1;
+                            #[allow(clippy::redundant_closure_call)]
+                            $out.push(Some(($get)(e).unwrap_or(u32::MAX)));
                         }
                     }
-                    k += 1;
-                    if k > len + 2 {
-                        break;
-                    }
                 }
+                yielded
             }};
         }
-        let r = call(|| match kind % 7 {
-            0 => walk!(vec.iter(), |e: any_vec::element::ElementRef<C::Tr, C::M>| e.downcast_ref::<C::T>().and_then(|x| x.payload())),
-            1 => walk!(vec.iter_mut(), |mut e: any_vec::element::ElementMut<C::Tr, C::M>| e.downcast_mut::<C::T>().and_then(|x| x.payload())),
-            2 => walk!((&*vec).into_iter(), |e: any_vec::element::ElementRef<C::Tr, C::M>| e.downcast_ref::<C::T>().and_then(|x| x.payload())),
-            3 => walk!((&mut *vec).into_iter(), |mut e: any_vec::element::ElementMut<C::Tr, C::M>| e.downcast_mut::<C::T>().and_then(|x| x.payload())),
-            4 => walk!(vec.downcast_ref::<C::T>().unwrap().iter(), |x: &C::T| x.payload()),
-            5 => walk!(vec.downcast_mut::<C::T>().unwrap().iter_mut(), |x: &mut C::T| x.payload()),
-            _ => walk!(vec.downcast_ref::<C::T>().unwrap().as_slice().iter(), |x: &C::T| x.payload()),
+        let ca = clone_at.min(calls.len());
+        let r = call(|| match kind {
+            0 => {
+                let mut it = vec.iter();
+                walk!(it, |e: any_vec::element::ElementRef<C::Tr, C::M>| e.downcast_ref::<C::T>().and_then(|x| x.payload()), calls, out, 0usize);
+            }
+            1 => {
+                let mut it = vec.iter_mut();
+                walk!(it, |mut e: any_vec::element::ElementMut<C::Tr, C::M>| e.downcast_mut::<C::T>().and_then(|x| x.payload()), calls, out, 0usize);
+            }
+            2 => {
+                let mut it = (&*vec).into_iter();
+                walk!(it, |e: any_vec::element::ElementRef<C::Tr, C::M>| e.downcast_ref::<C::T>().and_then(|x| x.payload()), calls, out, 0usize);
+            }
+            3 => {
+                let mut it = (&mut *vec).into_iter();
+                walk!(it, |mut e: any_vec::element::ElementMut<C::Tr, C::M>| e.downcast_mut::<C::T>().and_then(|x| x.payload()), calls, out, 0usize);
+            }
+            4 => {
+                let mut it = vec.downcast_ref::<C::T>().unwrap().iter();
+                walk!(it, |x: &C::T| x.payload(), calls, out, 0usize);
+            }
+            5 => {
+                let mut it = vec.downcast_mut::<C::T>().unwrap().iter_mut();
+                walk!(it, |x: &mut C::T| x.payload(), calls, out, 0usize);
+            }
+            6 => {
+                let mut it = vec.downcast_ref::<C::T>().unwrap().as_slice().iter();
+                walk!(it, |x: &C::T| x.payload(), calls, out, 0usize);
+            }
+            _ => {
+                let get = |e: any_vec::element::ElementRef<C::Tr, C::M>| e.downcast_ref::<C::T>().and_then(|x| x.payload());
+                let mut it = vec.iter();
+                let done = walk!(it, get, calls[..ca], out, 0usize);
+                let mut cl = it.clone();
+                // the clone continues with the rest of the string ...
+                walk!(cl, get, calls[ca..], out, done);
+                // ... the original independently drains everything front to back (+1 call)
+                static FALSES: [bool; 2048] = [false; 2048];
+                let rest = &FALSES[..(len + 1 - done.min(len)).min(2048)];
+                walk!(it, get, rest, out2, done);
+            }
         });
-        self.expect_panic(name, &r, false, "");
+        self.expect_panic_m(MON_ITER | MON_MODEL, name, &r, false, "");
         if self.dead() {
             return;
         }
-        if let Some((k, sh, l)) = hint_bad {
-            self.fail(MON_ITER | MON_MODEL, format!("{}:size_hint", name), format!("{}: after {} items size_hint() = {:?}, len() = {} but {} remain", name, k, sh, l, len - k.min(len)));
+        if let Some((k, sh, l, rem)) = hint_bad {
+            self.fail(MON_ITER | MON_MODEL, format!("{}:size_hint", name), format!("{}: before call {} size_hint() = {:?}, len() = {} but {} items remain", name, k, sh, l, rem));
             return;
         }
-        // expected order
+        // expected items
         let m = &self.model[v];
         let (mut lo, mut hi) = (0usize, len);
-        let mut want = Vec::with_capacity(len);
-        for k in 0..len {
-            let back = match pattern % 3 {
-                0 => false,
-                1 => true,
-                _ => k % 2 == 1,
-            };
-            if back {
+        let mut want: Vec<Option<u32>> = Vec::with_capacity(calls.len());
+        let mut state_at_clone = (0usize, len);
+        for (k, back) in calls.iter().enumerate() {
+            if k == ca {
+                state_at_clone = (lo, hi);
+            }
+            if lo == hi {
+                want.push(None);
+            } else if *back {
                 hi -= 1;
-                want.push(m[hi]);
+                want.push(Some(m[hi]));
             } else {
-                want.push(m[lo]);
+                want.push(Some(m[lo]));
                 lo += 1;
             }
         }
-        let got: Vec<Option<u32>> = out.iter().map(|x| x.1).collect();
-        let wanto: Vec<Option<u32>> = want.iter().map(|x| Some(*x)).collect();
-        if got != wanto {
-            self.fail(MON_MODEL | MON_ITER, format!("{}:items", name), format!("{} ({}) yielded {:?}, Vec model gives {:?}", name, PAT[pattern as usize % 3], got, want));
+        if ca == calls.len() {
+            state_at_clone = (lo, hi);
         }
-        if len > 1 && pattern % 3 != 0 {
+        if out != want {
+            self.fail(MON_MODEL | MON_ITER, format!("{}:items", name), format!("{} with calls \"{}\" yielded {:?}, the model gives {:?}", name, pat, out, want));
+            return;
+        }
+        if kind == 7 {
+            let (l2, h2) = state_at_clone;
+            let mut want2: Vec<Option<u32>> = m[l2..h2].iter().map(|x| Some(*x)).collect();
+            want2.push(None);
+            if out2 != want2 {
+                self.fail(MON_ITER, "iter.clone:independence", format!("after cloning an IterRef and advancing the clone, the original yielded {:?}, expected {:?}", out2, want2));
+                return;
+            }
+        }
+        let mixed = calls.iter().any(|b| *b) && calls.iter().any(|b| !*b);
+        if mixed || calls.len() > len {
             self.nontrivial = true;
+        }
+        if calls.len() > len {
+            self.class("past-exhaustion");
         }
     }
 }
